@@ -10,7 +10,7 @@ import random
 from vmon import core, inventory, mutate, pipeline, roundtrip
 from vmon.gen import noncanonical
 
-BUDGET = {'quick': 120, 'thorough': 3000}
+BUDGET = {'quick': 120, 'thorough': 9000}
 REFERENCE_BLOCKS = {'quick': 4, 'thorough': 60}     # per protocol family, 60 reference encodings each
 
 
